@@ -34,9 +34,11 @@ type verifC05Requester struct {
 	onRequest func(hashes [][]byte)
 }
 
-func (r *verifC05Requester) RequestTrieNodes(_ uint32, hashes [][]byte, _ string) { r.onRequest(hashes) }
-func (r *verifC05Requester) RequestInterval() time.Duration                      { return time.Millisecond }
-func (r *verifC05Requester) IsInterfaceNil() bool                                { return r == nil }
+func (r *verifC05Requester) RequestTrieNodes(_ uint32, hashes [][]byte, _ string) {
+	r.onRequest(hashes)
+}
+func (r *verifC05Requester) RequestInterval() time.Duration { return time.Millisecond }
+func (r *verifC05Requester) IsInterfaceNil() bool           { return r == nil }
 
 type verifC05TrieInfo struct {
 	root       []byte
